@@ -4,6 +4,8 @@
 // every layer receives the SAME params P given in the command.  Chains of
 // arbitrary depth are built by recursion; `MacroProg<P, L>` needs a sized
 // `P: GetInstr`, so each layer's base is wrapped in `Dyn(&dyn GetInstr)`.
+// Params field `S,C,chain`: the innermost layer receives (S,C), every further
+// layer receives `params()` of the layer below it (what tm/macro.py does).
 use crate::*;
 
 use std::collections::BTreeSet;
@@ -75,30 +77,46 @@ fn parse_spec(spec: &str) -> Vec<(Kind, usize)> {
         .collect()
 }
 
-/// Builds the chain over `base` (base outward) and calls `f` on the outermost object.
+/// Builds the chain over `base` (base outward) and calls `f` on the outermost
+/// object and the params its constructor received.
 fn with_chain<R>(
     base: &dyn GetInstr,
-    params: Params,
+    (params, chain): (Params, bool),
     spec: &[(Kind, usize)],
-    f: &mut dyn FnMut(&dyn MacroObj) -> R,
+    f: &mut dyn FnMut(&dyn MacroObj, Params) -> R,
 ) -> R {
     let d = Dyn(base);
     let (kind, k) = spec[0];
     match kind {
         Kind::Block => {
             let m = make_block_macro(&d, params, k);
-            if spec.len() == 1 { f(&m) } else { with_chain(&m, params, &spec[1..], f) }
+            if spec.len() == 1 {
+                f(&m, params)
+            } else {
+                let next = if chain { m.params() } else { params };
+                with_chain(&m, (next, chain), &spec[1..], f)
+            }
         },
         Kind::Back => {
             let m = make_backsymbol_macro(&d, params, k);
-            if spec.len() == 1 { f(&m) } else { with_chain(&m, params, &spec[1..], f) }
+            if spec.len() == 1 {
+                f(&m, params)
+            } else {
+                let next = if chain { m.params() } else { params };
+                with_chain(&m, (next, chain), &spec[1..], f)
+            }
         },
     }
 }
 
-fn params_of(s: &str) -> Params {
-    let f: Vec<u64> = s.split(',').map(|x| x.parse().unwrap()).collect();
-    (f[0], f[1])
+fn params_of(s: &str) -> (Params, bool) {
+    let f: Vec<&str> = s.split(',').collect();
+    let chain = match f.get(2) {
+        None => false,
+        Some(&"chain") => true,
+        Some(other) => panic!("bad params {other}"),
+    };
+    ((f[0].parse().unwrap(), f[1].parse().unwrap()), chain)
 }
 
 fn slots_of_field(s: &str) -> Vec<Slot> {
@@ -157,12 +175,12 @@ fn cmd_macro(prog: &str, params: &str, spec: &str, queries: &str) -> String {
     let params = params_of(params);
     let spec = parse_spec(spec);
     let qs = slots_of_field(queries);
-    with_chain(&comp, params, &spec, &mut |m| {
+    with_chain(&comp, params, &spec, &mut |m, outer_params| {
         let ans: Vec<Answer> = qs.iter().map(|q| query(m, q)).collect();
         format!(
             "{}|{}",
             ans.iter().map(field_of_answer).collect::<Vec<_>>().join(";"),
-            dump_state(*spec.last().unwrap(), params, m, &qs, &ans)
+            dump_state(*spec.last().unwrap(), outer_params, m, &qs, &ans)
         )
     })
 }
@@ -173,8 +191,8 @@ fn cmd_macro2(prog: &str, params: &str, spec: &str, qa: &str, qb: &str) -> Strin
     let spec = parse_spec(spec);
     let qa = slots_of_field(qa);
     let qb = slots_of_field(qb);
-    with_chain(&comp, params, &spec, &mut |a| {
-        with_chain(&comp, params, &spec, &mut |b| {
+    with_chain(&comp, params, &spec, &mut |a, _| {
+        with_chain(&comp, params, &spec, &mut |b, _| {
             let mut ra = vec![];
             let mut rb = vec![];
             for i in 0..qa.len().max(qb.len()) {
@@ -195,7 +213,7 @@ fn cmd_macrorun(prog: &str, params: &str, spec: &str, n: &str) -> String {
     let params = params_of(params);
     let spec = parse_spec(spec);
     let n: u64 = n.parse().unwrap();
-    with_chain(&comp, params, &spec, &mut |m| {
+    with_chain(&comp, params, &spec, &mut |m, _| {
         // machine.rs:159-203 run_for_infrul without the prover
         let mut tape = BasicTape::init(0);
         let mut state: State = 0;
@@ -234,7 +252,7 @@ fn cmd_macroparams(params: &str, spec: &str) -> String {
     let comp = CompProg::new();
     let params = params_of(params);
     let spec = parse_spec(spec);
-    with_chain(&comp, params, &spec, &mut |m| {
+    with_chain(&comp, params, &spec, &mut |m, _| {
         let (s, c) = m.params();
         format!("{s},{c}")
     })
